@@ -40,6 +40,29 @@ def name_ids(case):
     return ids
 
 
+def prepend_obj(level):
+    """the Python object passed as `prepend`: a list, or (pform) ONE value that is not a list — a bare
+    scalar or a tuple — which is one prepended argument"""
+    pre = level.get('prepend') or []
+    form = level.get('pform')
+    if not pre:
+        return None
+    if form == 'scalar':
+        return pre[0]
+    if form == 'tuple':
+        return tuple(pre[0])
+    return list(pre)
+
+
+def pval(v):
+    """text of a value the body received for a prepended parameter"""
+    if isinstance(v, (tuple, list)):
+        return 't:' + ','.join(sc(x) for x in v)
+    if isinstance(v, (int, float)):
+        return sc(v)
+    return '?'
+
+
 def sc(v):
     """scaled integer text of a dyadic number"""
     s = v * SCALE
@@ -107,7 +130,7 @@ def make_source(case):
         src.append(f'    REC[{i}] = [{names}]')
         for w in lv.get('wraps', []):
             rsrc = 'SHARED' if case.get('shared_rates') else repr(w.get('rates'))
-            src.append(f"    SynthDef.wrap(fn{w['_id']}, rates={rsrc}, prepend={w.get('prepend') or None!r})")
+            src.append(f"    SynthDef.wrap(fn{w['_id']}, rates={rsrc}, prepend={prepend_obj(w)!r})")
         if i == 0:
             src.append('    SNAP()')
         src.append('')
@@ -146,13 +169,13 @@ def run_one(case):
     # one caller-owned rates object used by the graph function and every wrapped function
     ns['SHARED'] = kwargs.get('rates') if case.get('shared_rates') else None
     if top.get('prepend'):
-        kwargs['prepend'] = list(top['prepend'])
+        kwargs['prepend'] = prepend_obj(top)
     if case.get('specs') is not None:
         kwargs['metadata'] = {'specs': {k: _state['spec'].ControlSpec(0, 1, default=v)
                                         for k, v in case['specs'].items()}}
     if case.get('variants'):
         kwargs['variants'] = {vn: {cn: vals for cn, vals in pairs} for vn, pairs in case['variants']}
-    before = json.dumps([kwargs.get('rates'), kwargs.get('prepend'), kwargs.get('variants')], sort_keys=True)
+    before = repr([kwargs.get('rates'), kwargs.get('prepend'), kwargs.get('variants')])
     try:
         sd = sdf.SynthDef('c04', ns['fn0'], **kwargs)
     except Exception as e:  # noqa
@@ -160,7 +183,7 @@ def run_one(case):
     first[0] = False
     rec1 = dict(rec)
     # the caller's argument objects after the build, and a second build from the very same objects
-    out['args_after'] = json.dumps([kwargs.get('rates'), kwargs.get('prepend'), kwargs.get('variants')], sort_keys=True)
+    out['args_after'] = repr([kwargs.get('rates'), kwargs.get('prepend'), kwargs.get('variants')])
     out['args_before'] = before
     try:
         sd2 = sdf.SynthDef('c04', ns['fn0'], **kwargs)
@@ -226,7 +249,7 @@ def run_one(case):
                 row.append(proxy(v))
         args.append(' '.join(row))
     out['args'] = ' | '.join(args)
-    out['prepended'] = [[sc(dict(rec.get(lv['_id'], [])).get(p['n'])) if isinstance(dict(rec.get(lv['_id'], [])).get(p['n']), (int, float)) else '?'
+    out['prepended'] = [[pval(dict(rec.get(lv['_id'], [])).get(p['n']))
                          for p in lv['params'][:len(lv.get('prepend') or [])]] for lv in levels]
     out['variants'] = [[n, ' '.join(sc(v) for v in vals)] for n, vals in d['variants']]
     # ---- python side of the name table (debug / lag observation)
